@@ -348,12 +348,27 @@ structure Decls where
   /-- lexemes in source order: name and the text of the `(ID)` clause (`[]` when absent) -/
   toks : List (Str × Str)
   nonterms : List Str
+  /-- `flexMode = true` (C++ target): lexemes go through `parseFlexDeclarations` -/
+  flex : Bool
 
-/-- lexer phase: `eoi`, `invalid_token`, then every lexeme. -/
+/-- One lexeme in `lexerCompiler.parseFlexDeclarations`: a second declaration of a name is an error
+("redeclaration of '%v'") and is skipped; the explicit ID is normalised by the same test. -/
+def addFlexToken (st : RState) (t : Str × Str) : RState :=
+  if hasName st t.1 then { st with errs := st.errs ++ [.redecl t.1] }
+  else addToken st t.1 (lexemeId t.2)
+
+/-- lexer phase: `eoi`, `invalid_token`, then every lexeme (`traverseLexer`); in flex mode `eoi`,
+`error` with the fixed ID `YYerror`, `invalid_token`, then every lexeme (`parseFlexDeclarations`). -/
 def tokenPhase (d : Decls) : RState :=
-  let st0 := addToken (addToken {} (cs ['e','o','i']) [])
-    (cs ['i','n','v','a','l','i','d','_','t','o','k','e','n']) []
-  d.toks.foldl (fun st t => addToken st t.1 (lexemeId t.2)) st0
+  if d.flex then
+    let st0 := addToken (addToken (addToken {} (cs ['e','o','i']) [])
+      (cs ['e','r','r','o','r']) (cs ['Y','Y','e','r','r','o','r']))
+      (cs ['i','n','v','a','l','i','d','_','t','o','k','e','n']) []
+    d.toks.foldl addFlexToken st0
+  else
+    let st0 := addToken (addToken {} (cs ['e','o','i']) [])
+      (cs ['i','n','v','a','l','i','d','_','t','o','k','e','n']) []
+    d.toks.foldl (fun st t => addToken st t.1 (lexemeId t.2)) st0
 
 structure Result where
   syms : List Sym
